@@ -782,6 +782,67 @@ enum Framing {
     Cl,
     /// Transfer-Encoding: chunked with these chunk sizes (remainder as a last chunk)
     Chunked { sizes: Vec<usize>, kind: String },
+    /// Transfer-Encoding: chunked written out by hand: optionally ALSO a
+    /// Content-Length header (any text) before or after the Transfer-Encoding
+    /// line, chunk extensions (`5;ext=1`), a trailer section after the last chunk
+    Wire {
+        cl: Option<String>,
+        cl_first: bool,
+        sizes: Vec<usize>,
+        ext: bool,
+        trailer: bool,
+        kind: String,
+    },
+}
+
+fn build_wire(
+    path: &str,
+    hdrs: &[(&str, &str)],
+    body: &[u8],
+    cl: &Option<String>,
+    cl_first: bool,
+    sizes: &[usize],
+    ext: bool,
+    trailer: bool,
+) -> Vec<u8> {
+    let mut v = Vec::new();
+    v.extend_from_slice(format!("PUT {} HTTP/1.1\r\nHost: localhost\r\n", path).as_bytes());
+    for (k, val) in hdrs {
+        v.extend_from_slice(format!("{}: {}\r\n", k, val).as_bytes());
+    }
+    if let (Some(c), true) = (cl, cl_first) {
+        v.extend_from_slice(format!("Content-Length: {}\r\n", c).as_bytes());
+    }
+    v.extend_from_slice(b"Transfer-Encoding: chunked\r\n");
+    if let (Some(c), false) = (cl, cl_first) {
+        v.extend_from_slice(format!("Content-Length: {}\r\n", c).as_bytes());
+    }
+    v.extend_from_slice(b"\r\n");
+    let e = if ext { ";ext=1" } else { "" };
+    let mut i = 0;
+    let put = |v: &mut Vec<u8>, n: usize, i: &mut usize| {
+        v.extend_from_slice(format!("{:x}{}\r\n", n, e).as_bytes());
+        v.extend_from_slice(&body[*i..*i + n]);
+        v.extend_from_slice(b"\r\n");
+        *i += n;
+    };
+    for &sz in sizes {
+        if i >= body.len() {
+            break;
+        }
+        let n = sz.max(1).min(body.len() - i);
+        put(&mut v, n, &mut i);
+    }
+    if i < body.len() {
+        let n = body.len() - i;
+        put(&mut v, n, &mut i);
+    }
+    v.extend_from_slice(format!("0{}\r\n", e).as_bytes());
+    if trailer {
+        v.extend_from_slice(b"X-Trail: 1\r\n");
+    }
+    v.extend_from_slice(b"\r\n");
+    v
 }
 #[derive(Serialize, Deserialize, Clone, Debug)]
 #[serde(tag = "t")]
@@ -905,6 +966,9 @@ fn live_run(
     let req = match f {
         Framing::Cl => request("PUT", path, &hdrs, Some(bytes)),
         Framing::Chunked { sizes, .. } => request_chunked("PUT", path, &hdrs, bytes, sizes),
+        Framing::Wire { cl, cl_first, sizes, ext, trailer, .. } => {
+            build_wire(path, &hdrs, bytes, cl, *cl_first, sizes, *ext, *trailer)
+        }
     };
     if let Some(r) = expect {
         s.ctx().expect.lock().unwrap().insert(id, r);
@@ -1063,7 +1127,19 @@ fn run_case(w: &mut World, case: &Case, group: &'static str, out: &mut dyn Write
                 g_opt(ov, |n| n.to_string()),
                 def,
                 g_segs(body),
-                g_list(&res, |(st, h, ok)| format!("LRun {} {} {}", st, g_hobs(h), g_bool(*ok)))
+                g_list(&runs.iter().zip(res.iter()).collect::<Vec<_>>(), |(f, (st, h, ok))| match f {
+                    // both Content-Length and Transfer-Encoding: the judge needs
+                    // the Content-Length text and the header order
+                    Framing::Wire { cl: Some(c), cl_first, .. } => format!(
+                        "LRunB {} {} {} {} {}",
+                        g_str(c),
+                        g_bool(*cl_first),
+                        st,
+                        g_hobs(h),
+                        g_bool(*ok)
+                    ),
+                    _ => format!("LRun {} {} {}", st, g_hobs(h), g_bool(*ok)),
+                })
             );
             let mut tags = vec![
                 format!("live:{}", x.name()),
@@ -1077,6 +1153,7 @@ fn run_case(w: &mut World, case: &Case, group: &'static str, out: &mut dyn Write
                 kinds.insert(match f {
                     Framing::Cl => "framing:content-length".to_string(),
                     Framing::Chunked { kind, .. } => format!("framing:chunked-{}", kind),
+                    Framing::Wire { kind, .. } => format!("framing:both-headers:{}", kind),
                 });
             }
             tags.extend(kinds);
@@ -1706,6 +1783,73 @@ fn gen_large(opts: &Opts, cases: &mut Vec<(&'static str, Case)>) {
     }
 }
 
+/// Requests that carry BOTH Content-Length and Transfer-Encoding: chunked
+/// (RFC 9112 6.3: Transfer-Encoding overrides Content-Length; the body is what
+/// the chunked coding carries), with the Content-Length before / after the
+/// Transfer-Encoding line and every kind of value; plus chunk extensions and a
+/// trailer section.  Bodies within and over the cap, all five extractors.
+fn gen_both_headers(cases: &mut Vec<(&'static str, Case)>) {
+    for (ov, def) in [(None, 1024u64), (Some(100u64), 7u64), (Some(100), 1024)] {
+        let cap = eff(ov, def) as usize;
+        for x in ALLX {
+            for len in [70usize, cap, cap + 1, cap + 30] {
+                let body = body_for(x, len, 0, 4, 7);
+                let values: Vec<(String, &str)> = vec![
+                    (len.to_string(), "equal"),
+                    ("3".to_string(), "smaller"),
+                    (if len < cap { cap.to_string() } else { (len + 1).to_string() }, "larger"),
+                    ("999999".to_string(), "larger-than-cap"),
+                    ("0".to_string(), "zero"),
+                    ("18446744073709551613".to_string(), "u64max-2"),
+                    ("18446744073709551614".to_string(), "u64max-1"),
+                    ("18446744073709551615".to_string(), "u64max"),
+                    ("".to_string(), "empty"),
+                    ("99999999999999999999".to_string(), "20-digits"),
+                    ("12x".to_string(), "not-a-number"),
+                ];
+                let mut runs = vec![];
+                for (v, name) in &values {
+                    for cl_first in [true, false] {
+                        runs.push(Framing::Wire {
+                            cl: Some(v.clone()),
+                            cl_first,
+                            sizes: vec![len.max(1) / 2 + 1],
+                            ext: false,
+                            trailer: false,
+                            kind: format!("cl-{}-{}", if cl_first { "before-te" } else { "after-te" }, name),
+                        });
+                    }
+                }
+                for (ext, trailer, kind) in
+                    [(true, false, "chunk-ext"), (false, true, "trailer-section"), (true, true, "chunk-ext+trailer")]
+                {
+                    runs.push(Framing::Wire {
+                        cl: None,
+                        cl_first: false,
+                        sizes: vec![5, 7, 64],
+                        ext,
+                        trailer,
+                        kind: kind.into(),
+                    });
+                }
+                // everything at once
+                runs.push(Framing::Wire {
+                    cl: Some("999999".into()),
+                    cl_first: true,
+                    sizes: vec![5, 7, 64],
+                    ext: true,
+                    trailer: true,
+                    kind: "cl-before-te-larger-than-cap+ext+trailer".into(),
+                });
+                cases.push((
+                    "live-both-headers",
+                    Case::Live { x, ov, def, body, runs, via_macro: false, tags: vec!["both-headers".into()] },
+                ));
+            }
+        }
+    }
+}
+
 fn gen_cases(opts: &Opts) -> Vec<(&'static str, Case)> {
     let mut rng = Rng::new(opts.seed);
     let mut cases: Vec<(&'static str, Case)> = vec![];
@@ -1893,6 +2037,7 @@ fn gen_cases(opts: &Opts) -> Vec<(&'static str, Case)> {
             cases.push(("live-macro", Case::Live { x: X::Untyped, ov: Some(5), def, body, runs, via_macro: true, tags: vec![] }));
         }
     }
+    gen_both_headers(&mut cases);
     gen_large(opts, &mut cases);
     // spread the expensive cases over the driver's shards (fixed permutation)
     Rng::new(0xC11).shuffle(&mut cases);
